@@ -6,7 +6,10 @@
   parameterless callback with a value D21, unformattable base D19) are repaired in the tree and
   the model has no partial operation left on these paths.  Typed: every rejection caused by an
   option token, a default, a required item or a command is a `*flags.Error` of the documented
-  type.  Contained: output events are produced by `printError` alone.
+  type.  Contained: output events are produced by `printError` alone.  Termination: the loop
+  takes fuel in the model; `argument_loop_terminates` shows that, for every unknown-option handler
+  that does not invent tokens, the fuel the model gives it is never what ends the loop — it ends
+  by itself after at most one iteration per token.
 -/
 import GoFlags.Lemmas.ParseLog
 
@@ -165,5 +168,20 @@ theorem setup_error_replayed (E : Env) (help : HelpFn) (P : Parser) (argv : List
     (hi : P.internalError = some e) :
     (parseArgs E help P argv).err = some e ∧ (parseArgs E help P argv).log = [] ∧ (parseArgs E help P argv).P = P := by
   unfold parseArgs; simp [hi]
+
+/-- **The argument loop terminates by itself**: for every declaration, option set and argument
+    vector, and every unknown-option handler that does not invent tokens, the result of the loop is
+    the same for every amount of fuel above the number of arguments — in particular for the fuel
+    `parsePhase` uses.  (A handler that returns more tokens than it was given can keep the real
+    loop running for ever; that is the handler's doing.) -/
+theorem argument_loop_terminates (E : Env) (help : HelpFn) (P : Parser) (argv : List Bytes) (f : Nat)
+    (hh : P.cfg.1.shrinks = true) (hf : argv.length < f) :
+    parseLoop E help (4 * argv.length + 16) (({ P := P, args := argv } : PS).fill 0) =
+      parseLoop E help f (({ P := P, args := argv } : PS).fill 0) := by
+  apply parseLoop_fuel_irrelevant
+  · exact hh
+  · show argv.length < 4 * argv.length + 16
+    omega
+  · exact hf
 
 end GoFlags.C04
